@@ -58,7 +58,7 @@ theorem C14_never_undecodable4 (rs : List ReadResult) (v : Invocation V4.Pkt4)
   cases hd : V4.dec4 (b.take readBufLen) <;> simp_all [Res.toOption]
 
 /-- the same, read the other way: a datagram that does not decode is never dispatched -/
-theorem C14_never_undecodable4' (rs : List ReadResult) (i : Nat) (b : Bytes) (p : Peer)
+theorem C14_undecodable_never_dispatched4 (rs : List ReadResult) (i : Nat) (b : Bytes) (p : Peer)
     (hi : rs[i]? = some (.datagram b p)) (hd : V4.dec4 (b.take readBufLen) = .err) :
     ∀ v ∈ (serve4 rs).invocations, v.idx ≠ i := by
   intro v hv e
